@@ -57,7 +57,12 @@ func initPool(r *eng.Run) {
 		add("v1pb", cid.NewCidV1(cid.DagProtobuf, s))
 		add("v1blake", cid.NewCidV1(cid.Raw, b))
 	}
-	for i, d := range [][]byte{{}, []byte("xy")} {
+	// identity payloads at the multihash length-varint boundary (127 -> 1-byte varint, 128 -> 2-byte varint)
+	idPayloads := [][]byte{{}, []byte("xy"), []byte(strings.Repeat("k", 127)), []byte(strings.Repeat("m", 128))}
+	if !r.Thorough() {
+		idPayloads = [][]byte{{}, []byte("xy"), []byte(strings.Repeat("m", 128))}
+	}
+	for i, d := range idPayloads {
 		m := mustSum(d, mh.IDENTITY)
 		pool = append(pool, entry{name: fmt.Sprintf("id%d", i), c: cid.NewCidV1(cid.Raw, m), data: d, id: true})
 	}
